@@ -506,45 +506,99 @@ def version_grid():
 REJECTED = ["garbage", "", "2.0-beta", "9" * 5000 + ".1", "2..1", "-2.1", "+2.1", "2.-1", "2_0.1", "1e1.0", "2.2a", "2.2.x", "a.b"]
 
 
-def run_c05(ctx) -> Corr:
-    corr = Corr("C05", "get_protocol and a gateway fed version replies / gateway presentations in all orders mixed with other "
-                "traffic, over the complete grid major{0,1,2,3,10} x minor{0..5,10} x [patch] x [build] (196 strings) plus the "
-                "rejected class; the type gate over every type number -1..40 x 5 versions x {internal, stream}; compared on the "
-                "version view (outcome class, reported version, active protocol) with the Lean model; oracle = numeric "
-                "major.minor selection restated in Python. non-trivial = distinct version string or (version, type) pair")
-    from aiomysensors.model.protocol import get_protocol
-    grid = version_grid()
-    ops = []
-    for s in grid + REJECTED:
-        want = ref_select(s)
+def av_select(s: str):
+    """The property's core on awesomeversion's own order, restated over the real `AwesomeVersion` objects: the first
+    supported key, newest first, that `s` is not below (`get_protocol`'s lazy search), 1.4 when there is none; the
+    exception class when a comparison that is reached raises.  Returns ("ok", version) / ("exc", class name), plus the
+    strategy and the five comparison results (each evaluated on its own) as the Lean driver's `avs` prints them."""
+    from awesomeversion import AwesomeVersion
+
+    res = []
+    for k in reversed(SUPPORTED):
         try:
-            got = get_protocol(s).VERSION
+            res.append("T" if AwesomeVersion(s) < AwesomeVersion(f"{k[0]}.{k[1]}") else "F")
         except Exception as e:  # noqa: BLE001
-            got = None
-        if want != got:
+            res.append(type(e).__name__)
+    want = ("ok", "1.4")
+    for k, r in zip(reversed(SUPPORTED), res):
+        if r == "F":
+            want = ("ok", f"{k[0]}.{k[1]}")
+            break
+        if r != "T":
+            want = ("exc", r)
+            break
+    view = AwesomeVersion(s).strategy.value.replace(" ", "") + "".join(" " + r for r in res)
+    return want, view
+
+
+def real_select(s: str):
+    from aiomysensors.model.protocol import get_protocol
+
+    try:
+        return ("ok", get_protocol(s).VERSION)
+    except Exception as e:  # noqa: BLE001
+        return ("exc", type(e).__name__)
+
+
+def run_c05(ctx) -> Corr:
+    corr = Corr("C05", "get_protocol over the complete grid major{0,1,2,3,10} x minor{0..5,10} x [patch] x [build] (196 release "
+                "strings), a structured corpus of about 300 version strings of every awesomeversion strategy (plain integers, "
+                "prefixes, SemVer / PEP 440 modifiers, calendar and hexadecimal versions, containers, white space, non-ASCII digits, "
+                "1-6 sections, the int() digit limit, the IndexError class) and random strings over 0-9.-+_vabrcdex, mutations of "
+                "valid strings and prefixed/suffixed sections (2 000 quick / 20 000 thorough per seed): outcome (protocol or "
+                "exception class), strategy and each of the five comparisons compared with the Lean model of awesomeversion; a "
+                "gateway fed version replies / gateway presentations with these strings in all orders mixed with other traffic, "
+                "and the type gate over every type number -1..40 x 5 versions x {internal, stream}, compared on the version view "
+                "(outcome class, reported version, active protocol). Oracle = numeric major.minor selection on the release grammar, "
+                "and on every string the newest key the string is not below in awesomeversion's order. non-trivial = distinct "
+                "version string or (version, type) pair")
+    grid = version_grid()
+    rng = lib.rng_for(ctx.seed, "c05s")
+    n_rand = 2000 if ctx.tier == "quick" else 20000
+    rand = [gw.rand_version_string(rng) for _ in range(n_rand)]
+    corpus = list(dict.fromkeys(grid + REJECTED + gw.VERSION_CORPUS))
+    strings = corpus + rand
+    ops = []
+    impl_sel = {}
+    for s in dict.fromkeys(strings):
+        got = real_select(s)
+        want_av, view = av_select(s)
+        impl_sel[s] = (got, view)
+        rel = ref_select(s)
+        case = {"version_string": s[:60], "length": len(s), "selected": list(got)}
+        if rel is not None and got != ("ok", rel):
             corr.violate("get_protocol does not select the newest supported protocol not newer than the reported version",
-                         {"version_string": s[:60], "selected": got, "want": want})
+                         {**case, "want": rel})
+        elif got != want_av:
+            corr.violate("get_protocol does not select the newest supported protocol the reported version is not below "
+                         "(awesomeversion's order)", {**case, "want": list(want_av), "comparisons": view})
         ops.append(f"sel {lib.enc(s)}")
-        corr.case(("sel", s), True, {"version_string": s[:40], "selected": got})
-        corr.count("select")
+        ops.append(f"avs {lib.enc(s)}")
+        corr.case(("sel", s), True, {"version_string": s[:40], "selected": list(got), "awesomeversion": view})
+        corr.count("select:" + ("release" if rel is not None else view.split(" ")[0]) + ":" + (got[1] if got[0] == "exc" else "ok"))
     if ctx.model_ok:
         outs = lib.run_model(ops)
-        for s, o in zip(grid + REJECTED, outs):
-            want = ref_select(s)
-            m = o.split(" ")[1] if o.startswith("ok") else None
-            if m != want:
-                corr.disagree("select", {"version_string": s[:60], "model": o, "impl": want})
+        for i, s in enumerate(dict.fromkeys(strings)):
+            got, view = impl_sel[s]
+            msel, mview = outs[2 * i], outs[2 * i + 1]
+            if msel != f"{got[0]} {got[1]}":
+                corr.disagree("select", {"version_string": s[:60], "length": len(s), "model": msel, "impl": f"{got[0]} {got[1]}"})
+            elif mview != view:
+                corr.disagree("awesomeversion view (strategy, then s < key for 2.2, 2.1, 2.0, 1.5, 1.4)",
+                              {"version_string": s[:60], "length": len(s), "model": mview, "impl": view})
     # histories of version reports mixed with other traffic
     rng = lib.rng_for(ctx.seed, "c05")
     hists = [h for _, h in corpus_histories("C05")]
     n = 120 if ctx.tier == "quick" else 2000
+    short = [s for s in corpus if len(s) <= 80]
     for i in range(n):
         h = Hist(rng.choice([None, None, "2.0", "1.4"]), True)
         if rng.random() < 0.5:
             h.preload = gw.gen_preload(rng)
         for _ in range(rng.randint(3, 14)):
             r = rng.random()
-            s = rng.choice(grid if rng.random() < 0.75 else REJECTED)
+            k = rng.random()
+            s = rng.choice(grid) if k < 0.45 else rng.choice(short) if k < 0.8 else gw.rand_version_string(rng)
             if r < 0.35:
                 h.ops.append(("recv", f"0;255;3;0;2;{s}", (), gw.DEFAULT_TIME))
             elif r < 0.55:
@@ -554,15 +608,34 @@ def run_c05(ctx) -> Corr:
             else:
                 h.ops.append(gw.gen_send(rng, "2.2"))
         hists.append(h)
-    # the type gate
+    # every corpus string once as a version reply and once as the gateway's presentation, version unknown
+    for j in range(0, len(corpus), 12):
+        h = Hist(None, True)
+        for s in corpus[j:j + 12]:
+            h.ops.append(("recv", f"0;255;3;0;2;{s}", (), gw.DEFAULT_TIME))
+            h.ops.append(("recv", f"0;255;0;0;18;{s}", (), gw.DEFAULT_TIME))
+        hists.append(h)
+    # the type gate (the version reply with payload "7" comes last: awesomeversion accepts a plain integer, which
+    # would switch the protocol under the rest of the sweep)
     for v in lib.VERSIONS:
         h = Hist(v, True, [("node", 1, 17, "2.0", "", "", 0, 0, False, False)])
         for t in range(-1, 41):
-            if t != 2:  # a version reply with payload "7" is outside the modelled version grammar
+            if t != 2:
                 h.ops.append(("recv", f"1;255;3;0;{t};7", (), gw.DEFAULT_TIME))
             h.ops.append(("recv", f"1;255;4;0;{t};7", (), gw.DEFAULT_TIME))
+        h.ops.append(("recv", "1;255;3;0;2;7", (), gw.DEFAULT_TIME))
+        h.ops.append(("recv", "1;255;3;0;2;2", (), gw.DEFAULT_TIME))
         hists.append(h)
     impl = run_both(hists, corr, ctx, "version", "version view")
+    sel_cache = {}
+
+    def want_of(s):
+        """The protocol the property asks for after `s` was reported; None = the report must be rejected."""
+        if s not in sel_cache:
+            rel = ref_select(s)
+            sel_cache[s] = rel if rel is not None else (lambda w: w[1] if w[0] == "ok" else None)(av_select(s)[0])
+        return sel_cache[s]
+
     for h, io in zip(hists, impl):
         for i, op in enumerate(h.ops):
             before, o = io[i], io[i + 1]
@@ -573,16 +646,19 @@ def run_c05(ctx) -> Corr:
                     corr.violate("no version reported yet but the active protocol is not 1.4", case)
                     break
             else:
-                want = ref_select(o["pv"])
+                want = want_of(o["pv"])
                 if want is None or o["proto"] != want:
                     corr.violate("the reported version and the active protocol disagree", {**case, "want": want})
                     break
             if op[0] == "recv":
                 f = fields_of(op[1])
                 if f is not None and ((f[2] == 3 and f[4] == 2) or (f[2] == 0 and f[0] == 0 and f[1] == 255)):
-                    want = ref_select(f[5])
+                    want = want_of(f[5])
                     if want is None and (o["pv"], o["proto"]) != (before["pv"], before["proto"]):
                         corr.violate("a rejected version report changed the reported version or the active protocol", case)
+                        break
+                    if want is None and not op[2] and o["out"] != "err invalidMessage":
+                        corr.violate("a rejected version report is not an invalid-message error", case)
                         break
                     if want is not None and not op[2] and (o["pv"], o["proto"]) != (f[5], want):
                         corr.violate("an accepted version report did not install the matching protocol", {**case, "want": want})
